@@ -243,7 +243,8 @@ class Name:
         self.ecu_instance = (value >> 32) & ((2 ** 3) - 1)
         self.function_instance = (value >> 35) & ((2 ** 5) - 1)
         self.function = (value >> 40) & ((2 ** 8) - 1)
-        self.reserved_bit = (value >> 48) & 1
+        # reserved by SAE: reads as 0 whatever the given value carries (as the constructor does)
+        self.reserved_bit = 0
         self.vehicle_system = (value >> 49) & ((2 ** 7) - 1)
         self.vehicle_system_instance = (value >> 56) & ((2 ** 4) - 1)
         self.industry_group = (value >> 60) & ((2 ** 3) - 1)
